@@ -349,3 +349,12 @@ _extend('C05',
         ' C05_on_disk_pool_get_batch / _add_batch / _run / _two_runs: the lift to whole pools - get_batch, add_batch and whole runs over '
         'batch indices 0,1,2,... (also with flush / reopen of all stores between two runs) commute with the abstraction from disk pools to '
         'the pool model; an index gap is where the two models differ (counterexample in the file).')
+
+
+_extend('C03',
+        ' COMPLETENESS (C03_generate_succeeds, C03_generate_total_and_sound, C03_compile_ok_iff, C03_stochastic_observed_refused): for a '
+        'well-formed acyclic source net with fresh twin names and positional-only parents of args_to_tuple nodes, compilation succeeds iff no '
+        'observed data would depend on a stochastic node (and then is refused with exactly that error), and generate succeeds and returns the '
+        'dataflow meaning of every requested output; the executor is total on such nets (DFS sort total and topological). A spec observation '
+        'proved by example (C03_tuple_named_parent_refused): a named parent of a Discrepancy (its args_to_tuple twin takes positional '
+        'arguments only) is refused by the model although Denote.wf_case does not exclude it - such graphs are not generated.')
